@@ -3497,8 +3497,9 @@ class SEVM:
                                 "is assumed to have empty bytecode"
                             )
 
-                        account_code: Contract | ByteVec = (
-                            ex.code.get(account_alias) or ByteVec()
+                        # note: Contract.slice() takes (start, size), unlike ByteVec.slice()
+                        account_code: Contract = ex.code.get(account_alias) or Contract(
+                            b""
                         )
                         codeslice: ByteVec = account_code.slice(offset, size)
                         state.set_mslice(loc, codeslice)
